@@ -1,0 +1,41 @@
+//go:build verif
+
+// Contracts for govc (see /verif/DESIGN.md). Comment-only file: with the
+// build tag off it is not part of the build, with it on it adds no code.
+
+package notify
+
+//@ # waitreg(n): this thread holds the channel that the next Broadcast of n will close
+//@ ghost waitreg(Ref) Bool
+//@ ghost bcasts(Ref) Int
+//@ extern (context.Context).Done(c) (d)
+//@   ensures d != nil
+
+//@ guarded Notify.cc by mu for C16
+
+//@ func New
+//@   for C16
+//@   ensures [C16.notify.new] fresh(result) && result.L == l && result.cc == nil && unlocked(addr(result.mu))
+
+//@ func (*Notify).getChan
+//@   for C16
+//@   requires n != nil && unlocked(addr(n.mu))
+//@   modifies n.cc, lockstate(addr(n.mu)), waitreg(n)
+//@   ensures [C16.notify.getchan] result != nil && result == n.cc && unlocked(addr(n.mu))
+//@   ensures old(n.cc) != nil ==> n.cc == old(n.cc)
+//@   ghostset waitreg(n) := true
+//@   ensures waitreg(n)
+
+//@ func (*Notify).Wait
+//@   for C16
+//@   requires n != nil && n.L != nil && ctx != nil && locked(n.L) && unlocked(addr(n.mu)) && n.L != addr(n.mu)
+//@   at (sync.Locker).Unlock requires [C16.wait.chan-before-unlock] waitreg(n)
+//@   modifies n.cc, lockstate(addr(n.mu)), lockstate(n.L), waitreg(n), cancelled(ctx)
+//@   ensures [C16.wait.relock] locked(n.L) && unlocked(addr(n.mu))
+//@   ensures [C16.wait.cancel] !ok ==> cancelled(ctx)
+
+//@ func (*Notify).Broadcast
+//@   for C16
+//@   requires n != nil && unlocked(addr(n.mu))
+//@   modifies n.cc, lockstate(addr(n.mu)), bcasts(n)
+//@   ensures [C16.notify.broadcast] n.cc == nil && unlocked(addr(n.mu))
